@@ -310,6 +310,14 @@ class Metadata(CbMixin, ProgMixin):
                 pathnode = PathNode(start=start, stop=stop, **current)
                 piece.append(pathnode)
             self.piece_nodes.append(piece)
+        # files listed after the last byte of the payload are empty: they
+        # belong to no piece of their own, place them with the last one.
+        while (self.piece_nodes and not remainder
+               and file_index < len(self.files)
+               and not self.files[file_index]["length"]):
+            current = self.files[file_index]
+            self.piece_nodes[-1].append(PathNode(start=0, stop=-1, **current))
+            file_index += 1
 
     def _parse_tree(self, tree: dict, partials: list):
         """
